@@ -210,7 +210,9 @@ func runC04(c *Ctx) {
 				x.Subject = kr.by["user"].pub
 				// source networks stay ASCII: Unicode white space and case folding are outside the model
 				x.Src = []string{"", "10.0.0.0/8", "10.0.0.0/8, 192.168.1.0/24", "A::/16,a::/16, ,10.1.0.0/16", " 10.2.0.0/16 ,FE80::/10",
-					" 192.0.2.0/24", "10.3.0.0/16 ", "\tFE80::/10", " "}[g.rng.Intn(9)]
+					" 192.0.2.0/24", "10.3.0.0/16 ", "\tFE80::/10", " ",
+					// one network twice, spelled with other blanks or letter case: one entry after migration
+					"10.0.0.0/8, 192.168.0.0/16, 10.0.0.0/8", "fe80::/10,FE80::/10 , fe80::/10", "10.1.0.0/16 ,10.1.0.0/16"}[g.rng.Intn(12)]
 				src, s = x, kr.by["account"]
 			case "activation":
 				x := &v1.ActivationClaims{}
@@ -246,6 +248,7 @@ func runC04(c *Ctx) {
 			}
 			c.count("v1_encoded_" + kind)
 			inp := map[string]interface{}{"kind": kind, "signer_role": s.role, "token": tok}
+			poisonStep() // (what came before must not matter)
 			d, err := jwt.Decode(tok)
 			c.sum.ImplChecks++
 			if err != nil {
@@ -352,6 +355,7 @@ func runC04(c *Ctx) {
 				c.violation("C04: re-encoding migrated claims fails", inp)
 				continue
 			}
+			poisonStep() // (what came before must not matter)
 			d2, err := jwt.Decode(tok2)
 			if err != nil {
 				inp["error"] = err.Error()
